@@ -31,7 +31,7 @@ def _optimizers(pid):
 
 
 gprops.G_PROPS["C09"] = dict(oracles=["c09_obs"], families=FAMILIES, modes=["serial", "thread", "process"],
-                             n_quick=3000, n_thorough=30000, opts={})
+                             n_quick=3000, n_thorough=30000, opts={"extreme_p": 0.0, "extreme_every": 2})
 
 
 def plan(pid, tier, seed, n_override=None):
@@ -81,8 +81,12 @@ def make_desc(job):
         d["stop_kind"] = stop
         hist = []
         for _ in range(r.choice([1, 1, 2])):
-            if r.random() < 0.5:
+            u = r.random()
+            if u < 0.4:
                 hist.append({"task": "same"})
+            elif u < 0.65:
+                # same search space, another objective / direction / weight vector
+                hist.append({"task": scenario.other_objective(r, d["task"])})
             else:
                 hist.append({"task": scenario.gen_task(r, r.choice(["cont_multi", "cont_mixed", "cont_single"]))})
         d["ops"] = hist
@@ -113,6 +117,7 @@ def make_desc(job):
         d["config"], d["perturbed"] = scenario.gen_config(r, opt, engine_g.make_config, cycles=cyc, perturb_p=0.5,
                                                           stop_opts=False)
         d["faults"] = scenario.gen_faults(r, "serial", 0, p_none=0.6, kinds=scenario.STREAM_FAULTS)
+        d["debug"] = r.random() < 0.12
         ob = d["task"]["objective"]
         if "multi" not in ob and r.random() < 0.15:
             lows, highs, _ = scenario.var_ranges(d["task"]["vars"])
@@ -469,7 +474,8 @@ def run_c12(desc, stats):
     for which, tdesc in (("max", desc["task"]), ("min", _negated(desc["task"]))):
         with Session(desc["seed"], faults=desc.get("faults")) as s:
             s.set_ambient("c12")
-            r = s.call(_cls(desc)(_cfg(desc)), tasks.build_task(tdesc), entropy_label="c12")
+            o_ = _cls(desc)(_cfg(desc), debug=True) if desc.get("debug") else _cls(desc)(_cfg(desc))
+            r = s.call(o_, tasks.build_task(tdesc), entropy_label="c12")
             recs.append(r)
             if which == "max":
                 stats["steps"] = r.steps
